@@ -373,6 +373,7 @@ Fixpoint wf (sc : list nat) (e : expr) : Prop :=
   | Rep e mn mx => wf sc e /\ bounds_ok mn mx
   | Let x a b => ~ In x sc /\ wf sc a /\ wf (x :: sc) b
   | Class _ ms =>
+      ms <> [] /\
       (fix go (sc : list nat) (ms : list (option nat * bool * expr)) : Prop :=
          match ms with
          | [] => True
@@ -447,6 +448,9 @@ Proof.
 Qed.
 Definition after_ok n IHn := after_ok_gen n IHn ignored eq_refl.
 
+Fixpoint members_always (ms : list (option nat * bool * expr)) : bool :=
+  match ms with [] => true | (_, _, e) :: l' => always e && members_always l' end.
+
 Lemma class_ok n (IHn : IHT n) : forall cls start ms sc E s acc,
   (fix go (sc : list nat) (ms : list (option nat * bool * expr)) : Prop :=
      match ms with
@@ -463,7 +467,7 @@ Lemma class_ok n (IHn : IHT n) : forall cls start ms sc E s acc,
   | Raise, _ => True
   | Match v p', Done s' => (status s = true \/ ms <> [] -> status s' = true) /\ result s' = v /\ pos s' = p'
                            /\ sub E0 (locals s')
-  | Fails, Done s' => status s' = false /\ sub E0 (locals s')
+  | Fails, Done s' => status s' = false /\ members_always ms = false /\ sub E0 (locals s')
   | _, _ => False end.
 Proof.
   induction ms as [|[[name isf] e] ms IHms]; intros sc E s acc Hwf Hsc HS E0 sc0 Hsc0 Hdown;
@@ -472,8 +476,8 @@ Proof.
   - destruct Hwf as (Hwe & Hrest).
     pose proof (IHn e sc E s Hwe Hsc HS) as H. unfold agree in H.
     destruct (PEG n E e (pos s)) as [| | |v p'], (EXEC n e s) as [s1| |]; try contradiction; cbn [bind]; auto.
-    + destruct H as (A & B & C & D). rewrite A, B. cbn. auto.
-    + destruct H as (A & B & C & D). rewrite A, orb_true_r. subst v p'.
+    + destruct H as (A & B & C & D). cbn [members_always]. rewrite A, B. cbn. repeat split; auto.
+    + destruct H as (A & B & C & D). rewrite A, orb_true_r. subst v p'. cbn [members_always].
       destruct name as [x|].
       * destruct Hrest as (Hx & Hrest).
         specialize (IHms (x :: sc) ((x, result s1) :: E) (bindl s1 x (result s1))
@@ -486,10 +490,38 @@ Proof.
         destruct (class_loop (EXEC n) cls start ms (bindl s1 x (result s1)) _),
                  (class_spec (PEG n) cls start ms ((x, result s1) :: E) (pos s1) _) as [| | |v p']; auto.
         all: try (destruct IHms as (I1 & I2 & I3 & I4); repeat split; auto; intros _; apply I1; left; exact A).
+        all: try (destruct IHms as (I1 & I2 & I3); repeat split; auto; rewrite I2; apply andb_false_r).
       * specialize (IHms sc E s1 (if isf then result s1 :: acc else acc) Hrest Hsc D E0 sc0 Hsc0 Hdown).
         destruct (class_loop (EXEC n) cls start ms s1 _),
                  (class_spec (PEG n) cls start ms E (pos s1) _) as [| | |v p']; auto.
         all: try (destruct IHms as (I1 & I2 & I3 & I4); repeat split; auto; intros _; apply I1; left; exact A).
+        all: try (destruct IHms as (I1 & I2 & I3); repeat split; auto; rewrite I2; apply andb_false_r).
+Qed.
+
+Lemma bval_sub E s b x : sub E (locals s) -> bound_val E b = Some x -> bval s b = Some x.
+Proof.
+  intros HS. destruct b as [|m|y]; cbn; auto.
+  destruct (lookup y E) as [[]|] eqn:El; try discriminate.
+  intros H. rewrite (HS _ _ El). exact H.
+Qed.
+Ltac look HS x E :=
+  let w := fresh "w" in let Ex := fresh "Ex" in
+  destruct (lookup x E) as [w|] eqn:Ex; cbn; [rewrite (HS _ _ Ex); cbn | discriminate].
+
+Lemma eval_py_sub E L p v : sub E L -> eval_py E p = Some v -> eval_py L p = Some v.
+Proof.
+  intros HS. destruct p as [| | |m|x|f|x y|x]; cbn; auto.
+  - look HS x E. destruct (vlen w); try discriminate.
+    destruct (lookup y E) as [[]|] eqn:Ey; try discriminate. rewrite (HS _ _ Ey). auto.
+  - destruct (lookup x E) as [[]|] eqn:Ex; try discriminate. rewrite (HS _ _ Ex). auto.
+Qed.
+Lemma apply_fun_sub E L f x v : sub E L -> apply_fun E f x = Some v -> apply_fun L f x = Some v.
+Proof.
+  intros HS. destruct f as [| | | |y|y| |p a|p|y z|y]; cbn; auto.
+  - look HS y E. auto.
+  - destruct (vlen x); try discriminate. look HS y E. auto.
+  - look HS y E. destruct (vlen w); try discriminate.
+    destruct (lookup z E) as [[]|] eqn:Ez; try discriminate. rewrite (HS _ _ Ez). auto.
 Qed.
 
 Theorem exec_refines_peg : forall n, IHT n.
@@ -548,6 +580,156 @@ Proof.
       rewrite ?Hp, ?He; cbn [bind]; auto.
     + rewrite H1, orb_true_r. auto.
     + rewrite H1, H2. cbn. auto.
-  Show.
-Abort.
+  - (* Rep *) cbn [wf] in Hwf. destruct Hwf as (Hwe & Hb).
+    assert (Hgen : forall mnv mxv, bound_val E mn = Some mnv -> bound_val E mx = Some mxv ->
+              agree E (Rep e mn mx) (pos s) (rep_spec (PEG n E) n e mnv mxv (pos s) [])
+                    (rep_loop true (EXEC n) n e mn mnv mxv s [])).
+    { intros mnv mxv Emn Emx.
+      assert (Hmm : forall m, mxv = Some m -> mnv0 mnv <= m).
+      { intros m ->. destruct mn as [|a|x], mx as [|b0|y]; cbn in Emn, Emx, Hb; try discriminate; try contradiction.
+        - inversion Emn; subst. cbn. lia.
+        - inversion Emn; subst. cbn. lia.
+        - inversion Emn; inversion Emx; subst. cbn. exact Hb.
+        - subst y. rewrite Emn in Emx. inversion Emx; subst. cbn. lia. }
+      assert (Hz : mn_zero mn = true -> mnv0 mnv = 0).
+      { destruct mn as [|[|a]|x]; cbn in *; try discriminate; intros _; inversion Emn; reflexivity. }
+      pose proof (rep_ok (PEG n E) (EXEC n) E (wf sc) IHl n e mn mnv mxv s [] Hwe HS Hmm Hz) as H. unfold agree.
+      destruct (rep_loop true (EXEC n) n e mn mnv mxv s []), (rep_spec (PEG n E) n e mnv mxv (pos s) []) as [| | |v p']; auto.
+      destruct H as (A & B & C). cbn [always partial]. rewrite B. repeat split; auto. cbn. discriminate. }
+    destruct mx as [|[|m]|y].
+    + destruct (bound_val E mn) as [mnv|] eqn:Emn; [|exact I].
+      destruct (bound_val E BNone) as [mxv|] eqn:Emx; [|exact I].
+      rewrite (bval_sub _ _ _ _ HS Emn), (bval_sub _ _ _ _ HS Emx). apply Hgen; auto.
+    + cbn. auto.
+    + destruct (bound_val E mn) as [mnv|] eqn:Emn; [|exact I].
+      destruct (bound_val E (BLit (S m))) as [mxv|] eqn:Emx; [|exact I].
+      rewrite (bval_sub _ _ _ _ HS Emn), (bval_sub _ _ _ _ HS Emx). apply Hgen; auto.
+    + destruct (bound_val E mn) as [mnv|] eqn:Emn; [|exact I].
+      destruct (bound_val E (BVar y)) as [mxv|] eqn:Emx; [|exact I].
+      rewrite (bval_sub _ _ _ _ HS Emn), (bval_sub _ _ _ _ HS Emx). apply Hgen; auto.
+  - (* Expect *) cbn [wf] in Hwf. unfold agree. cbn [always partial].
+    destruct (IH_cases (PEG n E) (EXEC n) E (wf sc) IHl e s Hwf HS) as
+      [(Hp & He)|[Hp|[(v & p' & s1 & Hp & He & H1 & H2 & H3 & H4)|(s1 & Hp & He & H1 & H2 & H3 & H4)]]];
+      rewrite ?Hp, ?He; cbn [bind]; auto.
+    + rewrite H1, orb_true_r. cbn. auto.
+    + rewrite H1, H2. cbn. auto.
+  - (* ExpectNot *) cbn [wf] in Hwf. unfold agree. cbn [always partial].
+    destruct (IH_cases (PEG n E) (EXEC n) E (wf sc) IHl e s Hwf HS) as
+      [(Hp & He)|[Hp|[(v & p' & s1 & Hp & He & H1 & H2 & H3 & H4)|(s1 & Hp & He & H1 & H2 & H3 & H4)]]];
+      rewrite ?Hp, ?He; cbn [bind]; auto.
+    + rewrite H1. cbn. repeat split; auto; discriminate.
+    + rewrite H1. cbn. auto.
+  - (* Skip *) cbn [wf] in Hwf. destruct Hwf as (Hall & Hnn). apply all_Forall in Hall.
+    pose proof (skip_ok (PEG n E) (EXEC n) E (wf sc) IHl n es s Hall HS (Hnn n E)) as H. unfold agree.
+    destruct (skip_loop true (EXEC n) n es s), (skip_spec (PEG n E) n es (pos s)) as [| | |v p']; auto; try contradiction.
+  - (* Longest *) cbn [wf] in Hwf. destruct Hwf as (Hne & Hall). apply all_Forall in Hall.
+    destruct es as [|e1 [|e2 es]]; [congruence| |].
+    + inversion Hall as [|? ? Hw1 _]; subst. cbn [longest_spec].
+      unfold agree. cbn [always partial existsb]. rewrite !orb_false_r.
+      destruct (IH_cases (PEG n E) (EXEC n) E (wf sc) IHl e1 s Hw1 HS) as
+        [(Hp & He)|[Hp|[(v & p' & s1 & Hp & He & H1 & H2 & H3 & H4)|(s1 & Hp & He & H1 & H2 & H3 & H4)]]];
+        rewrite ?Hp, ?He; cbn [bind]; auto.
+      repeat split; auto. intros Hpar. apply H3. rewrite H2 in Hpar. cbn in Hpar. exact Hpar.
+    + pose proof (longest_ok (PEG n E) (EXEC n) E (wf sc) IHl (e1 :: e2 :: es) (negb (existsb always (e1 :: e2 :: es))) (pos s)
+                             (existsb part (e1 :: e2 :: es)) true s false VNone (pos s) (VErr 6) (pos s) None Hall HS) as H.
+      unfold agree.
+      match type of H with (?A -> ?B -> ?C -> ?D -> ?E0 -> ?F -> ?G -> _) =>
+        assert (HA : A) by auto; assert (HB : B) by auto; assert (HC : C);
+        [|assert (HD : D) by auto; assert (HE : E0) by auto; assert (HF : F) by (intros; discriminate);
+          assert (HG : G) by (intros; discriminate)] end.
+      { intros Hx. left. destruct (existsb always (e1 :: e2 :: es)); auto; discriminate. }
+      specialize (H HA HB HC HD HE HF HG).
+      destruct (longest_loop (EXEC n) _ _ _ _ s _ _ _ _ _),
+               (longest_spec (PEG n E) (e1 :: e2 :: es) (pos s) None) as [| | |v p'] eqn:EL; auto.
+      destruct H as (A & B & C).
+      assert (Hal : existsb always (e1 :: e2 :: es) = false).
+      { pose proof (longest_fail_all (PEG n E) (e1 :: e2 :: es) (pos s) EL) as Hf.
+        clear - Hf Hall IHl HS. induction Hf as [|x l Hx Hl IHf]; [reflexivity|].
+        inversion Hall as [|? ? Hwx Hwl]; subst. cbn [existsb].
+        rewrite (fail_not_always (PEG n E) (EXEC n) E (wf sc) IHl x s Hwx HS Hx). cbn. apply IHf; auto. }
+      cbn [always partial]. rewrite Hal. cbn [negb andb]. repeat split; auto.
+  - (* Backtrack *) unfold agree. destruct (k <=? pos s); cbn; auto.
+  - (* Fail *) cbn. auto.
+  - (* Sep *) cbn [wf] in Hwf. destruct Hwf as (Hwe & Hws).
+    pose proof (sep_ok (PEG n E) (EXEC n) E (wf sc) IHl n e sp discard trailer ae rs s [] (pos s) false false
+                       Hwe Hws HS (fun _ => eq_refl)) as H.
+    unfold agree.
+    destruct (sep_loop (EXEC n) n e sp discard trailer ae rs s [] (pos s) false) as [s'| |],
+             (sep_spec (PEG n E) n e sp (negb discard) trailer (pos s) [] (pos s) false) as [| |acc cp saw];
+      auto; try contradiction.
+    destruct (sep_final ae rs acc cp saw) as [| | |v q] eqn:Ef; auto; try contradiction.
+    cbn [always partial].
+    assert (Hal : ae && negb rs = false).
+    { unfold sep_final in Ef. destruct ae, rs; cbn in *; auto; discriminate. }
+    rewrite Hal. destruct H as (A & B). repeat split; auto. cbn. discriminate.
+  - (* Py *) destruct (eval_py E py) as [v|] eqn:Ep; [|exact I].
+    rewrite (eval_py_sub _ _ _ _ HS Ep). cbn. auto.
+  - (* Apply *) cbn [wf] in Hwf. destruct Hwf as (Hwa & Hwb). unfold agree. cbn [always partial].
+    destruct (IH_cases (PEG n E) (EXEC n) E (wf sc) IHl a s Hwa HS) as
+      [(Hp & He)|[Hp|[(v & p' & s1 & Hp & He & H1 & H2 & H3 & H4)|(s1 & Hp & He & H1 & H2 & H3 & H4)]]];
+      rewrite ?Hp, ?He; cbn [bind]; auto.
+    + replace (always a || status s1) with true by (rewrite H1, orb_true_r; auto). subst v p'.
+      destruct (IH_cases (PEG n E) (EXEC n) E (wf sc) IHl b s1 Hwb H4) as
+        [(Hq & Hf)|[Hq|[(v2 & p2 & s2 & Hq & Hf & J1 & J2 & J3 & J4)|(s2 & Hq & Hf & J1 & J2 & J3 & J4)]]];
+        rewrite ?Hq, ?Hf; cbn [bind]; auto.
+      * replace (always b || status s2) with true by (rewrite J1, orb_true_r; auto). subst v2 p2.
+        destruct al.
+        -- destruct (result s1) as [| | | | | | | |fn| | | |]; try exact I.
+           destruct (apply_fun E fn (result s2)) as [w|] eqn:Ea; [|exact I].
+           rewrite (apply_fun_sub _ _ _ _ _ J4 Ea). cbn. auto.
+        -- destruct (result s2) as [| | | | | | | |fn| | | |]; try exact I.
+           destruct (apply_fun E fn (result s1)) as [w|] eqn:Ea; [|exact I].
+           rewrite (apply_fun_sub _ _ _ _ _ J4 Ea). cbn. auto.
+      * replace (always b || status s2) with false by (rewrite J1, J2; auto).
+        repeat split; auto; rewrite J2, andb_false_r; auto; cbn; discriminate.
+    + replace (always a || status s1) with false by (rewrite H1, H2; auto).
+      repeat split; auto; rewrite H2; auto; cbn; discriminate.
+  - (* Where *) cbn [wf] in Hwf. destruct Hwf as (Hwa & Hwb). unfold agree. cbn [always partial].
+    destruct (IH_cases (PEG n E) (EXEC n) E (wf sc) IHl e s Hwa HS) as
+      [(Hp & He)|[Hp|[(v & p' & s1 & Hp & He & H1 & H2 & H3 & H4)|(s1 & Hp & He & H1 & H2 & H3 & H4)]]];
+      rewrite ?Hp, ?He; cbn [bind]; auto.
+    + replace (always e || status s1) with true by (rewrite H1, orb_true_r; auto). subst v p'.
+      destruct (IH_cases (PEG n E) (EXEC n) E (wf sc) IHl pred s1 Hwb H4) as
+        [(Hq & Hf)|[Hq|[(v2 & p2 & s2 & Hq & Hf & J1 & J2 & J3 & J4)|(s2 & Hq & Hf & J1 & J2 & J3 & J4)]]];
+        rewrite ?Hq, ?Hf; cbn [bind]; auto.
+      * replace (always pred || status s2) with true by (rewrite J1, orb_true_r; auto). subst v2 p2.
+        destruct (result s2) as [| | | | | | | |fn| | | |]; try exact I.
+        destruct (apply_fun E fn (result s1)) as [w|] eqn:Ea; [|exact I].
+        rewrite (apply_fun_sub _ _ _ _ _ J4 Ea).
+        destruct (truthy w); cbn; repeat split; auto; discriminate.
+      * replace (always pred || status s2) with false by (rewrite J1, J2; auto).
+        repeat split; auto; discriminate.
+    + replace (always e || status s1) with false by (rewrite H1, H2; auto).
+      repeat split; auto; discriminate.
+  - (* Let *) cbn [wf] in Hwf. destruct Hwf as (Hx & Hwa & Hwb). unfold agree. cbn [always partial].
+    destruct (IH_cases (PEG n E) (EXEC n) E (wf sc) IHl a s Hwa HS) as
+      [(Hp & He)|[Hp|[(v & p' & s1 & Hp & He & H1 & H2 & H3 & H4)|(s1 & Hp & He & H1 & H2 & H3 & H4)]]];
+      rewrite ?Hp, ?He; cbn [bind]; auto.
+    + replace (always a || status s1) with true by (rewrite H1, orb_true_r; auto). subst v p'.
+      pose proof (IHn body (x :: sc) ((x, result s1) :: E) (bindl s1 x (result s1)) Hwb
+                      (scope_cons _ _ _ _ Hsc) (sub_cons _ _ _ _ H4)) as H.
+      cbn [pos bindl] in H. unfold agree in H.
+      destruct (EXEC n body (bindl s1 x (result s1))) as [s2| |],
+               (PEG n ((x, result s1) :: E) body (pos s1)) as [| | |v p']; auto.
+      * destruct H as (A & B & C & D). repeat split; auto.
+        -- rewrite B, andb_false_r. auto.
+        -- rewrite B, andb_false_r. cbn. discriminate.
+        -- eapply sub_drop; eauto.
+      * destruct H as (A & B & C & D). repeat split; auto. eapply sub_drop; eauto.
+    + replace (always a || status s1) with false by (rewrite H1, H2; auto).
+      repeat split; auto; rewrite H2; auto; cbn; discriminate.
+  - (* Class *) cbn [wf] in Hwf. destruct Hwf as (Hne & Hwf).
+    pose proof (class_ok n IHn cls (pos s) ms sc E s [] Hwf Hsc HS E sc Hsc (fun L HL => HL)) as H.
+    unfold agree.
+    change (always (Class cls ms)) with (members_always ms).
+    change (part (Class cls ms)) with (negb (members_always ms)).
+    destruct (class_loop (EXEC n) cls (pos s) ms s []), (class_spec (PEG n) cls (pos s) ms E (pos s) []) as [| | |v p']; auto.
+    + destruct H as (A & B & C). rewrite B. repeat split; auto. cbn. discriminate.
+    + destruct H as (A & B & C & D). repeat split; auto.
+  - exact I.
+  - exact I.
+  - exact I.
+Qed.
 End Main.
+Check exec_refines_peg.
+Print Assumptions exec_refines_peg.
